@@ -189,3 +189,68 @@ def rule_blocks(ctx: Any, repo: Repo, rule: str, once_rule: Optional[str] = None
                       construct=f"{what}: the call '{tag}' was logged to {seen.get(tag, [])}")
         ctx.check(not [t for t in seen if t not in want], once_rule or rule, tc.fq, "a call made outside every tracing block is not logged", construct=f"{what}: {[t for t in seen if t not in want]}")
     ctx.floor(rule, "tracing-block shapes interpreted with real tracer objects", n, 5)
+
+
+class ConfiguredBlock(BlocksScenario):
+    """`with monkeytype.trace(<shipped configuration object>): <events>` - the whole default wiring with real objects:
+    get_default_config() / DefaultConfig() build a configuration object on the heap, its methods run from the source
+    (trace_logger, code_filter, sample_rate, max_typed_dict_size and whatever else trace() asks it), the store is an
+    opaque collaborator, the tracer is a real object."""
+
+    def __init__(self, repo: Repo, body_src: str, config_ctor: str = "DefaultConfig()") -> None:
+        self.repo = repo
+        pkg = repo.module("monkeytype")
+        src = f"def __driver__(L1, L2, F1, F2):\n    CONFIG = {config_ctor}\n" + "\n".join("    " + ln for ln in body_src.strip("\n").split("\n")) + "\n"
+        # the driver lives in monkeytype/__init__.py (where `trace` is) and sees the configuration classes
+        node = ast.parse(src).body[0]
+        self.fi = FunctionInfo(pkg, "<driver>", node)
+        inline = set()
+        for mn in ("monkeytype", M, "monkeytype.config", "monkeytype.db.base"):
+            inline |= {f.fq for f in repo.module(mn).functions.values() if f.qualname.split(".")[-1] not in TRACER_INLINE_STOP | {"default_code_filter", "trace_store"}}
+        self.ri = RepoInterp(repo, self.fi, inline=inline, call_hook=self.hook2, may_fork=(), heap=True, max_depth=24)
+        self.ri.construct_instances = True
+        self.ri.dispatch_instances = True
+        self.world = {"profile": R("profiler", name=K("P0"))}
+        self.logged = []
+        self.flushed = []
+        self.filters = {}
+        self.pe, self.pr = _points()
+        self.n_events = 0
+        self.rng_seeds: List[Tuple[Any, ...]] = []
+        self.stored: List[V] = []
+        base_name = self.ri.on_name
+        def on_name(name: str, st: State) -> Optional[V]:
+            if name in ("DefaultConfig", "Config") and self.ri.cur_fi is self.fi:
+                ci = repo.cls("monkeytype.config", name, required=False)
+                if ci is not None:
+                    return S("class:" + ci.fq)
+            return base_name(name, st)
+        self.ri.on_name = on_name  # type: ignore[method-assign]
+        self.ri.interp.on_name = on_name
+
+    def hook2(self, call: ast.Call, fname: Optional[str], fval: Optional[V], args: List[V], kwargs: Dict[str, V], st: State) -> Optional[V]:
+        d = fname or ""
+        meth = call.func.attr if isinstance(call.func, ast.Attribute) else None
+        if d in ("random.Random", "Random", "random.SystemRandom", "SystemRandom"):
+            self.rng_seeds.append((d, tuple(st.freeze(a) for a in args), tuple(sorted((k, st.freeze(v)) for k, v in kwargs.items()))))
+            return R("opaque", what=K("random.Random()"))
+        if d == "DefaultConfig" and self.ri.cur_fi is self.fi:
+            ci = self.repo.cls("monkeytype.config", "DefaultConfig")
+            obj = st.alloc("obj", {"__class__": K(ci.fq)})
+            init = self.repo.method(ci, "__init__")
+            if init is not None:
+                self.ri.inline_call(init, call, obj, list(args), dict(kwargs), st)
+            return obj
+        if meth == "trace_store":
+            return S("p:store")
+        if isinstance(fval, S) and fval.name == "p:store" and meth is not None:
+            if meth == "add" and args:
+                self.stored.append(st.freeze(args[0]))
+            return K(None)
+        if meth == "code_filter" and isinstance(fval, Ref):
+            return S("p:F1")  # the default filter: accepts the scenario's code objects (decided on its own under C17)
+        if d == "import_module" or d == "importlib.import_module":
+            from mtsa.absint import raise_exc
+            raise_exc(st, "ImportError")
+            return U("no monkeytype_config")
+        return self.hook(call, fname, fval, args, kwargs, st)
